@@ -18,6 +18,8 @@ RULES = {
     "C05.R8": "dispatch totality: __torch_dispatch__/__torch_function__ forward *args/**kwargs to the handler or the fallback",
     "C05.R9": "qfallback dequantizes every QTensor in args and kwargs",
     "C05.R10": "re-quantizing handlers compute on dequantized values and re-quantize with the operand qtype and documented scale",
+    "C05.R18": "mutation is local and atomic: (a) a handler that writes a scale in place (copy_) must not meet scale tensors shared between a result and its operand (neg / relu / where / views hand their operand's scale object to the result); (b) it checks that source and destination scales have the same layout before it changes anything; (c) every tensor class intercepts the mutating op copy_ (a class without it copies into a dequantized temporary: a silent no-op)",
+    "C05.R19": "a handler accepts the optional arguments of the aten ops it is registered for (div: rounding_mode; copy_: non_blocking): as a named parameter or through **kwargs",
     "C05.R17": "integer payload arithmetic does not wrap: neg / abs are applied to a raw int8 payload only after the lowest code (which has no positive counterpart) has been clamped away",
     "C05.R12": "scale positivity: a handler that rescales by a scalar preserves the sign of the scale whenever another handler works on raw payloads assuming a positive scale",
     "C05.R13": "guard helpers mean what the rules assume: is_scalar = python number or plain 0-dim tensor; cannot_mm = grouped payload",
@@ -130,6 +132,7 @@ def run(chk):
                 chk.require("C05.R16", f"{h.mi.rel}:{p.end[2]}", ok, f"{h.name} (registered for in-place {ip}) returns its first operand `{first}` (`{U(e)[:60] if e is not None else None}`)", h.name, f"in-place {ip} returns a fresh tensor",
                             f"x.{ip[0].split('.')[1]}(...) on a quantized x: x (and every alias of it) keeps its old value, only the returned tensor is updated")
     chk.floor("C05.R16", n_ip, 1, "handlers registered for in-place ops")
+    mutation_rules(chk, hs)
     try:
         c07.accumulation(chk, {"qbytes_mm": repo.func("qbytes_mm")}, rule="C05.R15")
         c07.handler_accumulation(chk, rule="C05.R15")
@@ -141,3 +144,68 @@ def run(chk):
         "ops without float8 CPU kernels: neg, relu, abs, cat, lt/gt/le/ge/eq/ne, mm, bmm (repo comments + torch 2.14)",
         "scales are positive (C01/C03): positively homogeneous ops commute with the scale",
     )
+
+
+OPTIONAL_KW = {"aten.div": ["rounding_mode"], "aten.copy_": ["non_blocking"]}  # from the aten schemas (div.Tensor_mode, copy_)
+
+
+def mutation_rules(chk, hs):
+    import ast
+    from ..core import U, atoms, paths_of, positional_params
+    from ..hand import is_ctor, ctor_fields
+    repo = chk.repo
+    qb = hs["qbytes"]
+    # ---- (a) in-place scale writers vs shared scale objects
+    writers, sharers = [], []
+    for h in qb:
+        inplace = [o for o in h.ops if o.split(".")[1].endswith("_")]
+        opn = positional_params(h.fn)[0]
+        for nd in ast.walk(h.fn):
+            if inplace and isinstance(nd, ast.Call) and U(nd.func) == opn and nd.args and U(nd.args[0]).endswith("._scale"):
+                writers.append((h, nd))
+        if not inplace:
+            tparams = [p_ for p_ in positional_params(h.fn)[1:]]
+            for p in paths_of(h.fn):
+                if p.end[0] == "return" and is_ctor(p.end[1]):
+                    f = ctor_fields(repo, "QBytesTensor", p.end[1])
+                    if f and U(f["scale"]) in [f"{x}._scale" for x in tparams] + [f"{x}[0]._scale" for x in tparams]:
+                        sharers.append(h.name)
+                        break
+    n = len(writers)
+    for h, nd in writers:
+        chk.require("C05.R18", f"{h.mi.rel}:{nd.lineno}", not sharers, f"{h.name} writes a scale in place (`{U(nd)[:50]}`); handlers handing their operand's scale object to their result: {sorted(set(sharers))[:8]}", h.name, "in-place scale write meets shared scales",
+                    "r = -q; r.copy_(p): q is rescaled too (r and q hold the same scale tensor); q[0:2].copy_(p[0:2]) rescales the rows of q that were not written; a model whose forward copies into a module output rewrites that module's output_scale buffer")
+    # ---- (b) layout agreement before the first mutation of copy_
+    for h in qb:
+        if "aten.copy_" not in h.ops:
+            continue
+        dest, src = positional_params(h.fn)[1:3]
+        for p in paths_of(h.fn):
+            if p.end[0] != "return":
+                continue
+            muts = [ef for ef in p.effects if ef[0] == "store" and U(ef[1]) == dest]
+            if not muts:
+                continue
+            n += 1
+            facts = {a for c, t, ln in p.conds for a, tr in atoms(c, t) if tr}
+            agree = any(("_scale.shape" in a or ".axis" in a) and dest in a and ("==" in a) for a in facts)
+            chk.require("C05.R18", f"{h.mi.rel}:{muts[0][4]}", agree, f"{h.name}: the layouts of the two scales are compared before the destination is changed (facts: {sorted(facts)[:3]})", h.name, "copy_ mutates before the layouts are known to agree",
+                        "per_tensor_q.copy_(per_axis_q) (or axis 0 <- axis -1): the codes are overwritten, then the scale copy raises a broadcast RuntimeError; the destination holds the new codes under its old scale")
+    # ---- (c) every tensor class intercepts copy_
+    for table, cname in (("qbytes", "QBytesTensor"), ("qbits", "QBitsTensor")):
+        has = any("aten.copy_" in h.ops for h in hs[table])
+        n += 1
+        chk.require("C05.R18", f"{repo.cls(cname).mod.rel}:{repo.cls(cname).node.lineno}", has, f"{cname}: aten.copy_ is intercepted", cname, f"{cname} lacks aten.copy_",
+                    "q4.copy_(x) on a packed low-bit tensor: the fallback copies into a dequantized temporary and returns q4 unchanged, without an error")
+    chk.floor("C05.R18", n, 3, "mutation obligations")
+    # ---- optional arguments
+    m = 0
+    for h in qb:
+        for o, kws in OPTIONAL_KW.items():
+            if o in h.ops:
+                m += 1
+                names = {a.arg for a in h.fn.args.args + h.fn.args.kwonlyargs}
+                ok = h.fn.args.kwarg is not None or all(k in names for k in kws)
+                chk.require("C05.R19", f"{h.mi.rel}:{h.fn.lineno}", ok, f"{h.name} accepts {kws} of {o}", h.name, f"{h.name} rejects optional arguments of {o}",
+                            "torch.div(q, 2., rounding_mode='floor') (even rounding_mode=None) / q.copy_(q2, non_blocking=True): TypeError, the float program is valid")
+    chk.floor("C05.R19", m, 2, "handlers of ops with optional arguments")
